@@ -80,7 +80,7 @@ TRUSTED = ['z3 nonlinear arithmetic and quantifier instantiation']
 
 
 def tasks(tier):
-    t = ['arith', 'stencil', 'cellsize', 'bounds', 'ncells', 'sound', 'update', 'cache', 'cellkey', 'octroot', 'pidspace', 'sortkeys', 'eshreach', 'boxes27', 'sentinel', 'sortnbrs', 'shreach', 'pidslices', 'stalecount', 'context', 'query', 'complete', 'list', 'repoint', 'zrows', 'sortseg', 'sortflag',
+    t = ['arith', 'stencil', 'cellsize', 'bounds', 'ncells', 'sound', 'update', 'cache', 'cellkey', 'octroot', 'pidspace', 'sortkeys', 'eshreach', 'boxes27', 'sentinel', 'sortnbrs', 'shreach', 'pidslices', 'stalecount', 'nnpsinit', 'context', 'query', 'complete', 'list', 'repoint', 'zrows', 'sortseg', 'sortflag',
             'lemma', 'oracle']
     return t + ['canary']
 
@@ -1012,25 +1012,50 @@ def task_update(ctx, repo):
     mgr = SymObject(None, dict(cell_size=z3.Real('dom_cell_size'),
                                hmin=z3.Real('dom_hmin')), 'manager')
     uc = z3.Bool('use_cache')
-    obj = SymObject('NNPS', dict(domain=SymObject(None, dict(manager=mgr),
-                                                  'domain'),
-                                 narrays=2, particles=pas, use_cache=uc,
-                                 cache=caches), 'self')
-    obj.module = m
+    si, di = z3.Int('loaded_src_index'), z3.Int('loaded_dst_index')
+    obs = []
+    # with a (source, destination) pair loaded and with none
+    for loaded in (True, False):
+        obj = SymObject('NNPS', dict(
+            domain=SymObject(None, dict(manager=mgr), 'domain'),
+            narrays=2, particles=pas, use_cache=uc, cache=caches,
+            current_cache=caches[1] if loaded else None,
+            src_index=si, dst_index=di), 'self')
+        obj.module = m
 
-    def rec(tag):
-        return CalleeContract(lambda e, s_, a, k, nd: s_.trace.append(
-            (tag, a[1:], dict(k))))
-    ex = Executor(repo, m, qualname='NNPS.update', merge=False, contracts={
-        'NNPS._compute_bounds': rec('bounds'), 'NNPS._refresh': rec(
-            'refresh'), 'NNPS._bin': rec('bin')})
-    ex.spec_env['arange_uint'] = Native(lambda e, s_, a, k, nd: ('arange',
-                                                                 a[0]))
-    outs = ex.exec_function(fn, dict(self=obj), State(pc=[]))
-    ctx.function(m, fn, 'NNPS.update', ex.dropped)
+        def rec(tag):
+            return CalleeContract(lambda e, s_, a, k, nd: s_.trace.append(
+                (tag, a[1:], dict(k))))
+        ex = Executor(repo, m, qualname='NNPS.update', merge=False,
+                      contracts={
+                          'NNPS._compute_bounds': rec('bounds'),
+                          'NNPS._refresh': rec('refresh'),
+                          'NNPS._bin': rec('bin'),
+                          'NNPS.set_context': rec('set_context'),
+                          'NNPSBase.set_context': rec('set_context')})
+        ex.spec_env['arange_uint'] = Native(
+            lambda e, s_, a, k, nd: ('arange', a[0]))
+        outs = ex.exec_function(fn, dict(self=obj), State(pc=[]))
+        if loaded:
+            ctx.function(m, fn, 'NNPS.update', ex.dropped)
+        obs += _update_sequence_obs(outs, n, uc, mgr, loaded, si, di, W)
+    ctx.prove('update.rebuilds_every_array_and_invalidates_caches',
+              z3only(obs), use_nf=False, replay=replay_oracle(
+                  ['uniform', 'two', 'ghosts'], history=True))
+    _task_update_cache(ctx, repo, m, W)
+
+
+def _update_sequence_obs(outs, n, uc, mgr, loaded, si, di, W):
     obs = []
     for i_, o in enumerate(outs):
         tr = [t for t in o.state.trace]
+        # the structures handed out by set_context for the loaded pair are
+        # re-allocated by _refresh: that pair is loaded again at the very
+        # end (nothing to re-load when no pair is loaded)
+        rl = [t for t in tr if t[0] == 'set_context']
+        okrl = (len(rl) == 1 and tr[-1] is rl[0] and len(rl[0][1]) == 2 and
+                not rl[0][2]) if loaded else not rl
+        tr = [t for t in tr if t[0] != 'set_context']
         tags = [t[0] for t in tr]
         okshape = tags[:4] == ['bounds', 'refresh', 'bin', 'bin']
         g = [z3.BoolVal(okshape)]
@@ -1050,12 +1075,17 @@ def task_update(ctx, repo):
         me = o.state.env['self']
         g.append(S.to_z3(S.cmp('==', me.attrs['cell_size'],
                                mgr.attrs['cell_size'])))
-        obs.append(Obligation('update.sequence.%d' % i_, o.pc, z3.And(*g),
-                              W))
-    ctx.prove('update.rebuilds_every_array_and_invalidates_caches',
-              z3only(obs), use_nf=False, replay=replay_oracle(
-                  ['uniform', 'two', 'ghosts'], history=True))
+        g.append(z3.BoolVal(bool(okrl)))
+        if loaded and okrl:
+            g.append(S.to_z3(S.cmp('==', rl[0][1][0], si)))
+            g.append(S.to_z3(S.cmp('==', rl[0][1][1], di)))
+        obs.append(Obligation('update.sequence.%s.%d' % (
+            'pair_loaded' if loaded else 'no_pair_loaded', i_), o.pc,
+            z3.And(*g), W))
+    return obs
 
+
+def _task_update_cache(ctx, repo, m, W):
     # NeighborCache.update: every entry invalidated
     fn = m.methods('NeighborCache')['update']
     npart = z3.Int('np')
@@ -3385,12 +3415,201 @@ def _class_methods(repo, rel, cls):
     return m, out
 
 
+def _update_reloads_context(repo):
+    """NNPS.update (nnps_base.pyx) calls self.set_context(self.src_index,
+    self.dst_index) at its top level after self._refresh() and after the
+    binning loop, guarded at most by `self.current_cache is not None` (with no
+    context loaded the next cached query loads one itself, fix 613605a)."""
+    m = repo.cython_module('pysph/base/nnps_base.pyx')
+    fn = m.methods('NNPS').get('update')
+    if fn is None:
+        return False
+
+    def is_self_attr(e, a):
+        return isinstance(e, ast.Attribute) and e.attr == a and \
+            isinstance(e.value, ast.Name) and e.value.id == 'self'
+
+    def is_reload(st):
+        return isinstance(st, ast.Expr) and isinstance(st.value, ast.Call) \
+            and is_self_attr(st.value.func, 'set_context') and \
+            len(st.value.args) == 2 and not st.value.keywords and \
+            is_self_attr(st.value.args[0], 'src_index') and \
+            is_self_attr(st.value.args[1], 'dst_index')
+
+    def calls(st, name):
+        return any(isinstance(x, ast.Call) and is_self_attr(x.func, name)
+                   for x in ast.walk(st))
+    seen_refresh = seen_bin = False
+    for st in fn.body:
+        if calls(st, '_refresh'):
+            seen_refresh = True
+            seen_bin = False
+        if calls(st, '_bin'):
+            seen_bin = True
+        if not (seen_refresh and seen_bin):
+            continue
+        if is_reload(st):
+            return True
+        if isinstance(st, ast.If) and not st.orelse and \
+                isinstance(st.test, ast.Compare) and \
+                is_self_attr(st.test.left, 'current_cache') and \
+                len(st.test.ops) == 1 and \
+                isinstance(st.test.ops[0], ast.IsNot) and \
+                isinstance(st.test.comparators[0], ast.Constant) and \
+                st.test.comparators[0].value is None and \
+                any(is_reload(b) for b in st.body):
+            return True
+    return False
+
+
+def task_nnpsinit(ctx, repo):
+    """NNPSBase.__init__: the domain manager that will compute the cell size
+    -- the one the caller gave, or the default one -- is told the arrays and
+    the radius scale (a manager that never hears the radius scale bins with
+    a cell of size 1 whatever h is), and is the one stored."""
+    m = repo.cython_module(NB)
+    fn = m.methods('NNPSBase')['__init__']
+    W = m.path
+    obs = []
+    rs = z3.Real('radius_scale')
+    for given in (True, False):
+        made = []
+
+        def mkdom(tag):
+            d_ = SymObject(None, dict(manager=SymObject(None, dict(
+                is_periodic=z3.Bool('is_periodic')), 'manager')), tag)
+            d_.attrs['set_pa_wrappers'] = Native(
+                lambda e, s_, a, k, n, t_=tag: s_.trace.append(
+                    ('set_pa_wrappers', t_, a[0])))
+            d_.attrs['set_radius_scale'] = Native(
+                lambda e, s_, a, k, n, t_=tag: s_.trace.append(
+                    ('set_radius_scale', t_, a[0])))
+            return d_
+        dom = mkdom('given') if given else None
+        obj = SymObject('NNPSBase', {}, 'self')
+        obj.module = m
+        ex = Executor(repo, m, qualname='NNPSBase.__init__', merge=False)
+        ex.spec_env['DomainManager'] = Native(
+            lambda e, s_, a, k, n: (made.append(mkdom('default')),
+                                    made[-1])[1])
+        ex.spec_env['NNPSParticleArrayWrapper'] = Native(
+            lambda e, s_, a, k, n: ('wrapper', a[0]))
+        ex.spec_env['IntArray'] = Native(
+            lambda e, s_, a, k, n: C17.carr('cell_shifts',
+                                           length=S.to_z3(a[0])))
+        try:
+            outs = ex.exec_function(fn, dict(
+                self=obj, dim=z3.Int('dim'), particles=['pa0', 'pa1'],
+                radius_scale=rs, ghost_layers=1, domain=dom, cache=False,
+                sort_gids=False))
+        except VCError as e:
+            ctx.outside('nnpsinit.%s' % ('given' if given else 'default'),
+                        str(e))
+            continue
+        ok = len(outs) == 1
+        why = ''
+        if ok:
+            at = outs[0].state.env['self'].attrs
+            use = dom if given else (made[0] if made else None)
+            tag = 'given' if given else 'default'
+            tr = [t for t in outs[0].state.trace if t[0].startswith('set_')]
+            wr = at.get('pa_wrappers')
+            ok = at.get('domain') is use and use is not None and \
+                wr == [('wrapper', 'pa0'), ('wrapper', 'pa1')] and \
+                [t[:2] for t in tr] == [('set_pa_wrappers', tag),
+                                        ('set_radius_scale', tag)] and \
+                tr[0][2] == wr and S.same(tr[1][2], rs) and \
+                S.same(at.get('radius_scale'), rs)
+            why = 'calls on the domain: %r' % ([t[:2] for t in tr],)
+        obs.append(Obligation('nnpsinit.%s_domain' % (
+            'given' if given else 'default'), [], z3.BoolVal(bool(ok)), W,
+            extra=dict(why=why, backends=['z3'])))
+    ctx.function(m, fn, 'NNPSBase.__init__')
+    # NNPS.set_use_cache(True): while the cache was off update() skipped it,
+    # so whatever it holds is from before -- EVERY cache is invalidated
+    # (NeighborCache.update is the only place the cached flags are cleared),
+    # unconditionally; switching off only drops the flag
+    fsc = m.methods('NNPS')['set_use_cache']
+    for on in (True, False):
+        caches = [SymObject(None, dict(update=Native(
+            lambda e, s_, a, k, n, i=i: s_.trace.append(('cache_update',
+                                                         i)))), 'cache%d' % i)
+            for i in range(4)]
+        o_ = SymObject('NNPS', dict(cache=caches, use_cache=not on), 'self')
+        o_.module = m
+        ex = Executor(repo, m, qualname='NNPS.set_use_cache', merge=False)
+        try:
+            outs = ex.exec_function(fsc, dict(self=o_, use_cache=on))
+            ok = all(
+                o.state.env['self'].attrs.get('use_cache') is on and
+                [t[1] for t in o.state.trace if t[0] == 'cache_update'] ==
+                ([0, 1, 2, 3] if on else []) for o in outs) and len(outs) >= 1
+        except VCError as e:
+            ok = False
+        obs.append(Obligation('nnpsinit.set_use_cache.%s' % on, [],
+                              z3.BoolVal(bool(ok)), W,
+                              extra=dict(backends=['z3'])))
+    ctx.function(m, fsc, 'NNPS.set_use_cache')
+    ctx.prove('nnpsinit.domain_in_use_is_told_arrays_and_radius_scale', obs,
+              use_nf=False, replay=_replay_script(EXPLICIT_DOMAIN))
+
+
+EXPLICIT_DOMAIN = r'''
+import json, sys
+d = json.load(sys.stdin)
+if d.get('built'): sys.path.insert(0, d['built'])
+import numpy as np
+from pysph.base.utils import get_particle_array
+from pysph.base import nnps
+from cyarray.api import UIntArray
+bad = None
+rng = np.random.RandomState(4)
+for cls in ('LinkedListNNPS', 'BoxSortNNPS', 'SpatialHashNNPS', 'CellIndexingNNPS', 'OctreeNNPS'):
+    for explicit in (False, True):
+        n = 60
+        pa = get_particle_array(name='a', x=rng.rand(n) * 6, y=rng.rand(n) * 6, h=0.8 * np.ones(n))
+        dm = nnps.DomainManager(xmin=-1, xmax=7, ymin=-1, ymax=7) if explicit else None
+        nn = getattr(nnps, cls)(dim=2, particles=[pa], radius_scale=2.0, domain=dm)
+        nb = UIntArray()
+        for i in range(n):
+            nn.get_nearest_particles(0, 0, i, nb)
+            got = set(nb.get_npy_array().tolist())
+            d2 = (pa.x - pa.x[i]) ** 2 + (pa.y - pa.y[i]) ** 2
+            want = set(np.where(d2 < (2.0 * 0.8) ** 2 * (1 - 1e-9))[0].tolist())
+            if want - got:
+                bad = dict(algorithm=cls, explicit_domain_manager=explicit, h=0.8, radius_scale=2.0, particle=i, missing=sorted(want - got)[:6], cell_size=float(nn.cell_size)); break
+        if bad: break
+    if bad: break
+print(json.dumps(dict(bad=bad)))
+'''
+
+
+def _replay_script(script):
+    def rp(model, ob):
+        if os.environ.get('PYVC_NO_BUILD_REPLAY'):
+            return dict(reproduced=False, note='build replay disabled')
+        try:
+            dst, msg = native.shared_build()
+            if dst is None:
+                return dict(reproduced=False, note=msg)
+            r = native.run_venv(script, dict(built=dst), timeout=900,
+                                cwd='/tmp')
+        except Exception as e:
+            return dict(reproduced=False, note=str(e)[-300:])
+        if r['bad']:
+            return dict(reproduced=True, how='extensions built from the '
+                        'working tree', **r['bad'])
+        return dict(reproduced=False)
+    return rp
+
+
 def task_repoint(ctx, repo):
     """Whatever set_context caches from a per-array table must be refreshed
     by _refresh when _refresh replaces that table's entries: otherwise the
     cached structure of the current context dangles after update() and a
     cached query (which does not reload an unchanged pair) reads freed
     memory."""
+    base_reloads = _update_reloads_context(repo)
     for rel, cls in CONTEXT_CLASSES:
         m, meths = _class_methods(repo, rel, cls)
         nm = 'repoint.%s.refresh_keeps_the_loaded_context_valid' % cls
@@ -3460,6 +3679,10 @@ def task_repoint(ctx, repo):
         need = set()
         for t in replaced:
             need |= dep[t]
+        # ... or NNPS.update, the only caller of _refresh, loads the pair
+        # again after the rebuild (and the class does not replace update)
+        if base_reloads and 'update' not in meths:
+            reloads = True
         missing = sorted(need - restored) if not reloads else []
         ctx.function(m, meths['_refresh'], cls + '._refresh (stores to '
                      'per-array tables only)', set())
